@@ -105,6 +105,17 @@ pub fn post_fault_oracle(u: &Universe, cfg: &Config, ex: &mut Exec, fp: Props, v
 /// C16: every operation of `alpha` in the state reached by `hist`, with a
 /// panic injected at every callback index of every kind.
 pub fn fault_scan(ctx: &Ctx, cfg: &Config, hist: &[Op], alpha: &[Op], st: &mut Stats) -> ExtraOut {
+    fault_scan_kinds(ctx, cfg, hist, alpha, &CB_KINDS, st)
+}
+
+/// Operations that run a user closure, for the closure-only scan (C01: "the memory bound also
+/// still holds" after a panicking mutate closure or retain predicate).
+pub fn closure_alphabet(u: &Universe) -> Vec<Op> {
+    alphabet(u).into_iter().filter(|o| matches!(o, Op::Mutate { .. } | Op::Retain { .. } | Op::RetainMod { .. })).collect()
+}
+
+/// The same with the injected panics restricted to some callback kinds.
+pub fn fault_scan_kinds(ctx: &Ctx, cfg: &Config, hist: &[Op], alpha: &[Op], kinds: &[Cb], st: &mut Stats) -> ExtraOut {
     let u = ctx.u;
     let fp = p(16);
     let mut out = ExtraOut { viol: vec![], novel: vec![] };
@@ -128,7 +139,7 @@ pub fn fault_scan(ctx: &Ctx, cfg: &Config, hist: &[Op], alpha: &[Op], st: &mut S
             // documented panic (reserve overflow) or another property's problem
             continue;
         }
-        for kind in CB_KINDS {
+        for kind in kinds.iter().copied() {
             let cnt = c1[kind as usize] - c0[kind as usize];
             if let Cb::MutPost = kind {
                 // a closure that panics after growing the value by more than a
@@ -189,7 +200,7 @@ pub fn fault_scan(ctx: &Ctx, cfg: &Config, hist: &[Op], alpha: &[Op], st: &mut S
                         Cb::MutPre | Cb::MutPost => {
                             st.rule("C16.closure");
                             if o.cur > o.limit {
-                                viol.push((fp, "C16.bound", format!("after a panicking mutate closure current_size() = {} > max_size() = {}", o.cur, o.limit)));
+                                viol.push((fp | p(1), "C16.bound", format!("after a panicking mutate closure current_size() = {} > max_size() = {}", o.cur, o.limit)));
                             }
                             let a: Vec<u64> = pre.entries.iter().map(|x| x.kserial).collect();
                             let b: BTreeSet<u64> = o.entries.iter().map(|x| x.kserial).collect();
@@ -201,7 +212,7 @@ pub fn fault_scan(ctx: &Ctx, cfg: &Config, hist: &[Op], alpha: &[Op], st: &mut S
                         Cb::Pred => {
                             st.rule("C16.closure");
                             if o.cur > o.limit {
-                                viol.push((fp, "C16.bound", format!("after a panicking retain predicate current_size() = {} > max_size() = {}", o.cur, o.limit)));
+                                viol.push((fp | p(1), "C16.bound", format!("after a panicking retain predicate current_size() = {} > max_size() = {}", o.cur, o.limit)));
                             }
                             // rejected so far = completed predicate calls that returned false
                             let done = &side.pred_calls[..side.pred_calls.len().saturating_sub(1)];
